@@ -12,7 +12,8 @@ for l in open(patch).read().split('\n'):
     if l.startswith('+++ b/'):
         cur = l[6:]; files[cur] = []
     elif l.startswith('@@') and cur:
-        files[cur].append([[], []])
+        m = re.match(r'@@ -(\d+)', l)
+        files[cur].append([[], [], int(m.group(1))])
     elif cur and files[cur] and (l.startswith(' ') or l.startswith('-') or l.startswith('+')) and not l.startswith('---') and not l.startswith('+++'):
         h = files[cur][-1]
         if l[0] in ' -': h[0].append(l[1:])
@@ -21,8 +22,15 @@ assert len(files) == 1, ('single-file patches only', list(files))
 f, hunks = next(iter(files.items()))
 src = open('/repo/' + f).read()
 edits = []
-for old, new in hunks:
+lines = src.split('\n')
+for old, new, start in hunks:
     fo, fn = '\n'.join(old) + '\n', '\n'.join(new) + '\n'
+    # make the anchor unique by extending it upwards with the source lines that precede the hunk
+    up = start - 1  # 0-based index of the hunk's first line
+    while src.count(fo) != 1 and up > 0:
+        up -= 1
+        fo = lines[up] + '\n' + fo
+        fn = lines[up] + '\n' + fn
     assert src.count(fo) == 1, (sid, 'hunk anchor not unique', src.count(fo), fo[:80])
     edits.append({'find': fo, 'replace': fn})
 edits.reverse()  # bottom-up: an upper hunk's new text cannot disturb the anchors of the hunks below it
